@@ -23,7 +23,7 @@ import gc
 import json
 
 from .. import explore, vterm, world
-from ..c18_stage import Dead, Stage, Z_MAX, freeze_once
+from ..c18_stage import Dead, Stage, Z_MAX, freeze_once, reset_sub, sub_class
 from ..harness import h64
 
 ID = "C18"
@@ -243,7 +243,8 @@ _Z_TTY = None
 
 
 def z_execute(col, seed, history, judge_last=True):
-    """history: list of ["new"] / ["del", j].  Returns canonical key or None (dead)."""
+    """history: list of ["new"] (UrwidImage) / ["new", "sub"] (a subclass of it) / ["del", j].
+    Returns canonical key or None (dead)."""
     L = world.load_urwid()
     um = L.urwid_mod
     from ..imgkit import pattern
@@ -260,6 +261,8 @@ def z_execute(col, seed, history, judge_last=True):
         um.UrwidImage._ti_free_z_indexes = set()
         um.UrwidImageCanvas._ti_disguise_state = 0
     um.UrwidImage._ti_next_z_index = seed
+    reset_sub(um)
+    sub = sub_class(um)
     live = []
     case = dict(part="Z", seed=seed, history=history)
 
@@ -278,7 +281,8 @@ def z_execute(col, seed, history, judge_last=True):
         if op[0] == "new":
             exhausted = not um.UrwidImage._ti_free_z_indexes and um.UrwidImage._ti_next_z_index >= 2**31
             try:
-                w = um.UrwidImage(L.image.KittyImage(pattern(6, 6)), "+L")
+                wcls = sub if len(op) > 1 and op[1] == "sub" else um.UrwidImage
+                w = wcls(L.image.KittyImage(pattern(6, 6)), "+L")
             except um.UrwidImageError as e:
                 if not exhausted and (last or not judge_last):
                     col.violation(dict(part="Z", clause="spurious-too-many"),
@@ -313,7 +317,8 @@ def z_execute(col, seed, history, judge_last=True):
         if last or not judge_last:
             judge(i, op[0])
     key = (um.UrwidImage._ti_next_z_index, tuple(sorted(um.UrwidImage._ti_free_z_indexes)),
-           tuple(w._ti_z_index for w in live))
+           sub.__dict__.get("_ti_next_z_index"), tuple(sorted(sub.__dict__.get("_ti_free_z_indexes", ()))),
+           tuple((type(w) is sub, w._ti_z_index) for w in live))
     live.clear()
     gc.collect()
     return key
@@ -334,7 +339,7 @@ def z_bfs(col, tier):
             if len(h) >= depth:
                 continue
             nlive = sum(1 if op[0] == "new" else -1 for op in h)
-            ops = ([["new"]] if nlive < max_live else []) + [["del", j] for j in range(nlive)]
+            ops = ([["new"], ["new", "sub"]] if nlive < max_live else []) + [["del", j] for j in range(nlive)]
             for op in ops:
                 nh = h + [op]
                 k = z_execute(col, seed, nh)
